@@ -46,6 +46,7 @@ const (
 	classColdRelated = "cold-related-first-use"
 	classBoundedPool = "preparestmt-bounded-pool"
 	classTargetInUse = "owner-first-use-target-in-use"
+	classTargetWrite = "owner-first-use-target-written"
 
 	stallLimit = 30 * time.Second // no operation of any goroutine finished for this long = deadlock
 )
@@ -231,10 +232,31 @@ func (c *Case) familySafe(f int) bool {
 var assocWriteKinds = map[string]bool{"aappend": true, "areplace": true, "adelete": true, "aclear": true}
 
 // phaseAKinds: first calls on the second family while its owner types are cold.
-var phaseAKinds = []string{"create", "batch", "save", "tree", "tree", "find", "first", "count", "pluck", "preload", "preload", "joins", "afind", "acount", "update", "updates", "delete", "delrange"}
+// They are calls on an OWNER type that write no row of the target type and do not join it: since
+// Parcel has a field without a column, every create/update/delete of Parcel rows and every relation
+// join of Parcel looks the field's name up in Parcel's relation map (Statement.SelectAndOmitColumns,
+// the loop over the fields without a column) - the listed finding owner-first-use-target-written.
+// (repaired by 8eab58d: while that line reads `fixed:` the calls that write or join target rows - tree, joins - are
+// back in the first-call phase)
+var phaseAKindsNarrow = []string{"create", "batch", "save", "find", "first", "count", "pluck", "preload", "preload", "afind", "acount", "update", "updates", "delete", "delrange"}
+
+func phaseAKinds() []string {
+	if harness.OpenClass("C07", classTargetWrite) {
+		return phaseAKindsNarrow
+	}
+	return append([]string{"tree", "tree", "joins"}, phaseAKindsNarrow...)
+}
 
 func isPhaseAOp(o Op) bool {
-	return !isBlock(o.K) && family(o.M) == 2 && !assocWriteKinds[o.K]
+	if isBlock(o.K) || family(o.M) != 2 || o.M == mParcel {
+		return false
+	}
+	for _, k := range phaseAKinds() {
+		if o.K == k {
+			return true
+		}
+	}
+	return false
 }
 
 func touchesFamily(p []Op, f int) bool {
@@ -516,12 +538,10 @@ func genProgram(t *rapid.T, pal palette, n int) []Op {
 
 // genOwnerOp: a first call on one of Parcel's owner types (see phaseAKinds).
 func genOwnerOp(t *rapid.T) Op {
-	o := Op{K: rapid.SampledFrom(phaseAKinds).Draw(t, "ownerKind")}
+	o := Op{K: rapid.SampledFrom(phaseAKinds()).Draw(t, "ownerKind")}
 	o.Y = rapid.IntRange(0, 3).Draw(t, "yield") == 0
 	fillOp(t, &o, palette{f2: true})
-	if o.K == "joins" {
-		o.M, o.R = mSorter, "Parcel"
-	} else if family(o.M) != 2 || (o.M == mParcel && rapid.IntRange(0, 3).Draw(t, "keepParcel") != 0) {
+	if family(o.M) != 2 || o.M == mParcel {
 		o.M = rapid.SampledFrom(parcelOwners).Draw(t, "ownerType")
 		if o.R != "" {
 			o.R = parcelRel(o.M)
@@ -533,7 +553,7 @@ func genOwnerOp(t *rapid.T) Op {
 // firstUseOpen: the first-use findings are listed as open (they are two faces of one defect: a
 // parse writes into published schemas).
 func firstUseOpen() bool {
-	return harness.OpenClass("C07", classColdRelated) || harness.OpenClass("C07", classTargetInUse)
+	return harness.OpenClass("C07", classColdRelated) || harness.OpenClass("C07", classTargetInUse) || harness.OpenClass("C07", classTargetWrite)
 }
 
 func genCase(t *rapid.T) *Case {
@@ -634,6 +654,9 @@ func genCase(t *rapid.T) *Case {
 	}
 	if open && c.Warm == "targets" {
 		evid.Excluded(classTargetInUse)
+		if harness.OpenClass("C07", classTargetWrite) {
+			evid.Excluded(classTargetWrite)
+		}
 	}
 	// a storm: every goroutine starts with the same statement text (a failing or a good one)
 	var storm *Op
@@ -1771,6 +1794,17 @@ func (d *caseDB) warm(c *Case) {
 		parse(mParcel)
 		if err := d.DB.Limit(1).Find(newSlice(mParcel)).Error; err != nil {
 			panic("harness: warm query Parcel: " + err.Error())
+		}
+		// ... and written: one row outside every goroutine's range, updated and deleted again
+		p := &Parcel{ID: 1, Label: "warm"}
+		if err := d.DB.Create(p).Error; err != nil {
+			panic("harness: warm create Parcel: " + err.Error())
+		}
+		if err := d.DB.Model(p).Update("label", "warmer").Error; err != nil {
+			panic("harness: warm update Parcel: " + err.Error())
+		}
+		if err := d.DB.Delete(p).Error; err != nil {
+			panic("harness: warm delete Parcel: " + err.Error())
 		}
 	}
 }
